@@ -44,6 +44,15 @@ class PyIte:
         self.c, self.a, self.b = c, a, b
 
 
+class PyGuard:
+    """`c and val` with a boolean c and a non-boolean val: python's value is `val if c else False` (kept until an `or` or a test
+    consumes it)"""
+    __slots__ = ("c", "val")
+
+    def __init__(self, c, val):
+        self.c, self.val = c, val
+
+
 class PyCat:
     """concatenation of literals / conditionals whose sequence type is fixed later (by coercion)"""
     __slots__ = ("a", "b")
@@ -72,7 +81,7 @@ NONE_V = V(NONE, z3.BoolVal(True))
 
 
 def lift(c):
-    if isinstance(c, (V, PyTup, PyFn, PyConstObj, PyDict, PyIte, PyCat, Cursor)):
+    if isinstance(c, (V, PyTup, PyFn, PyConstObj, PyDict, PyIte, PyCat, PyGuard, Cursor)):
         return c
     if c is None:
         return NONE_V
@@ -190,6 +199,8 @@ def truthy(val):
         return z3.BoolVal(bool(val.items))
     if isinstance(val, (PyFn, PyConstObj)):
         return z3.BoolVal(True)
+    if isinstance(val, PyGuard):
+        return z3.And(val.c, truthy(val.val))
     ty = val.ty
     if ty is BOOL:
         return val.t
